@@ -49,7 +49,7 @@ _OPS_REQUIRED = ['set_val-scalar', 'set_val-array', 'set_val-idx', 'set_vec', 's
                  'op+=vec', 'op-=vec', 'op*=vec', 'op+=arr', 'op*=scalar', 'add_scal_vec', 'dot', 'get_norm',
                  'get_slice', 'add_to_slice', 'asarray-copy', 'asarray-alias', 'names', 'set_vals',
                  'cs-mode-problem', 'cs-mode-vector', 'scale_to_norm', 'scale_to_phys', 'scale-roundtrip',
-                 'scaled-context', 'unscaled-context', 'read_only', 'get_val']
+                 'scaled-context', 'unscaled-context', 'read_only', 'get_val', 'matvec-context']
 REQUIRED_COUNTERS = (['op:' + k for k in _OPS_REQUIRED] +
                      ['obs:asarray-compared', 'obs:root-handle-op', 'obs:subsystem-handle-op', 'obs:nonlinear-op',
                       'obs:linear-op', 'obs:complex-mode-op', 'obs:complex-linear-op', 'obs:named-view-compared',
@@ -58,7 +58,7 @@ REQUIRED_COUNTERS = (['op:' + k for k in _OPS_REQUIRED] +
                       'obs:scale-rev:input', 'obs:scale-with-adder', 'obs:scale-array-ref', 'obs:scale-unit-input',
                       'obs:scale-offset-unit-input', 'obs:scale-src_indices-input', 'obs:layout-compared',
                       'obs:scalar-var', 'obs:promoted-name', 'obs:relative-name', 'obs:declared-order-layout',
-                      'obs:hidden-imag-compared', 'obs:empty-vector'])
+                      'obs:hidden-imag-compared', 'obs:empty-vector', 'obs:matvec-restricted'])
 ASSUMPTIONS = [
     'the layout (variable order, offsets) is computed from the spec: tree order, children sorted by name when the '
     'Problem option allow_post_setup_reorder is True (documented), declared order otherwise; only the names of the '
@@ -686,7 +686,7 @@ class Run:
             ('slices', 3, self.op_slices), ('asarray', 2, self.op_asarray), ('names', 2, self.op_names),
             ('set_vals', 1, self.op_set_vals), ('cs', 4, self.op_cs), ('scale', 5, self.op_scale),
             ('roundtrip', 4, self.op_roundtrip), ('context', 3, self.op_context), ('read_only', 1, self.op_read_only),
-            ('get_val', 2, self.op_get_val),
+            ('get_val', 2, self.op_get_val), ('matvec', 2, self.op_matvec),
         ]
 
     # .. layout / names (read only)
@@ -1160,6 +1160,86 @@ class Run:
         finally:
             h.vec.read_only = False
         self.check_all('read_only', h)
+
+    # .. matvec context (restricted name sets of the linear vectors)
+    def op_matvec(self, h):
+        acc = self.acc
+        mine = {(g.fam.kind, g.fam.vname): g for g in self.handles if g.path == h.path}
+        di, do, dr = mine['input', 'linear'], mine['output', 'linear'], mine['residual', 'linear']
+        mode = self.rng.choice(['fwd', 'rev'])
+
+        def subset(vars_):
+            if self.rng.random() < 0.2:
+                return None
+            names = [d['abs'] for d in vars_ if self.rng.random() < 0.6]
+            if self.rng.random() < 0.3:
+                names.append('not.in.this.system')
+            return frozenset(names)
+        so, si = subset(do.vars), subset(di.vars)
+        self.tick('matvec-context', h)
+        with h.system._matvec_context(so, si, mode) as vecs:
+            if vecs[0] is not di.vec or vecs[1] is not do.vec or vecs[2] is not dr.vec:
+                raise Violation('matvec-context:yielded-vectors', '%s: _matvec_context does not yield the linear vectors'
+                                % h.label())
+            if mode == 'fwd':
+                dr.D[:] = 0.0
+            else:
+                di.D[:] = 0.0
+                do.D[:] = 0.0
+            self.check_all('matvec-context:enter-' + mode, h)
+            restricted = not (so is None and si is None)
+            for g, scope in ((di, si), (do, so)):
+                if not restricted:
+                    scope = None
+                ins = [d for d in g.vars if scope is None or d['abs'] in scope]
+                if len(ins) != len(g.vars):
+                    acc.count('obs:matvec-restricted')
+                self._names_view(g, ins, 'matvec-context')
+        for g in (di, do):
+            self._names_view(g, g.vars, 'matvec-context:after')
+        self.check_all('matvec-context:after', h)
+
+    def _names_view(self, g, ins, op):
+        """name-set observables of vector g when exactly the variables `ins` are in scope."""
+        v = g.vec
+        inabs = set(d['abs'] for d in ins)
+        if list(v) != [d['rel'] for d in ins] or list(v.keys()) != [d['rel'] for d in ins]:
+            raise Violation('%s:iter' % op, '%s: iteration gives %r, in scope are %r' %
+                            (g.label(), list(v), [d['rel'] for d in ins]))
+        A = g.A
+        items = list(v.items())
+        vals = list(v.values())
+        if [k for k, _ in items] != [d['rel'] for d in g.vars] or len(vals) != len(g.vars):
+            raise Violation('%s:items-names' % op, '%s: items() names %r' % (g.label(), [k for k, _ in items]))
+        expmask = np.zeros(g.n, dtype=bool)
+        for k, d in enumerate(g.vars):
+            isin = d['abs'] in inabs
+            for nm in (d['rel'], d['prom']):
+                if nm is not None and (nm in v) != isin:
+                    raise Violation('%s:contains' % op, '%s: (%r in vec) is %r, variable in scope: %r' %
+                                    (g.label(), nm, nm in v, isin))
+            if v._contains_abs(d['abs']) != isin:
+                raise Violation('%s:contains_abs' % op, '%s: _contains_abs(%r) is %r, in scope: %r' %
+                                (g.label(), d['abs'], not isin, isin))
+            exp = A[d['llo']:d['lhi']] if isin else np.zeros(d['lhi'] - d['llo'], dtype=A.dtype)
+            if not isin:
+                expmask[d['llo']:d['lhi']] = True
+            for lab, gotv in (('items', items[k][1]), ('values', vals[k])):
+                g_ = np.asarray(gotv)
+                if g_.shape != tuple(d['shape']) or g_.dtype.kind != exp.dtype.kind or \
+                        not np.array_equal(g_.ravel(), exp):
+                    raise Violation('%s:%s-value' % (op, lab), '%s: %s of %s (in scope: %r) = %r, expected %r' %
+                                    (g.label(), lab, d['abs'], isin, gotv, exp))
+        m = v.get_mask()
+        got = np.zeros(g.n, dtype=bool)
+        if m is not None:
+            got[m] = True
+        if not np.array_equal(got, expmask):
+            raise Violation('%s:get_mask' % op, '%s: get_mask() = %r, out-of-scope elements are %r' %
+                            (g.label(), m, np.nonzero(expmask)[0]))
+        if v._in_matvec_context() != (len(ins) != len(g.vars)):
+            raise Violation('%s:_in_matvec_context' % op, '%s: _in_matvec_context() = %r' %
+                            (g.label(), v._in_matvec_context()))
 
     # .. complex-step mode
     def op_cs(self, h):
